@@ -28,6 +28,19 @@ Lemma cache_pure :
   shared_writes_ok generated_loader_shared_writes = true.
 Proof. vm_compute. repeat split; reflexivity. Qed.
 
+(* on every control path of every entry-point method of the regenerated skeleton: map writes only under
+   the write lock, map reads under the read or the write lock, nothing held at the end *)
+Lemma cache_writes_under_write_lock :
+  forall name sk, In (name, sk) generated_methods -> forall tr, In tr (paths sk) ->
+    (forall pre post, tr = (pre ++ EvWrite :: post)%list -> run_hold HN pre = Some HW) /\
+    (forall pre post, tr = (pre ++ EvRead :: post)%list -> run_hold HN pre = Some HR \/ run_hold HN pre = Some HW) /\
+    run_hold HN tr = Some HN.
+Proof.
+  intros name sk Hin. apply discipline_ok_meaning.
+  pose proof (proj1 cache_all_methods) as H. rewrite forallb_forall in H. apply H.
+  apply in_map_iff. exists (name, sk). auto.
+Qed.
+
 (* the generic theorem at the generated program *)
 Lemma cache_sound :
   forall (V : Type) (v0 : V) (ths : list (list (@call V))), wf_threads (map snd generated_methods) ths ->
